@@ -60,7 +60,7 @@ type scen struct {
 	Comb     string // marshal | unmarshal | serde | mux | batcher | dual | queue
 	N        int    // input length
 	W        int    // workers / lanes / batch size
-	Pat      string // plain | big | slowcons | slowprod | burst | yield
+	Pat      string // plain | big | slowcons | slowprod | burst | yield | stall | jitter | testmux
 	Procs    int    // GOMAXPROCS
 	Seed     int64
 	CapIn    int // capacity of the caller's input channel
@@ -139,6 +139,12 @@ func (p *pace) consumer(k int) {
 	switch p.s.Pat {
 	case "slowcons":
 		p.nap(1, k)
+	case "stall":
+		// the consumer stops for a while: every buffer of the combinator fills up and the
+		// producer is pushed back, then everything drains
+		if k%1000 == 1 {
+			time.Sleep(20 * time.Millisecond)
+		}
 	case "yield":
 		if p.rng.Intn(3) == 0 {
 			runtime.Gosched()
